@@ -11,6 +11,10 @@ class SymDir(DirectedEdge): pass
 class SymUnd(UnDirectedEdge): pass
 class SymTwo(TwoEndedLink): pass
 class SymLink(Link): pass
+class SymBothDU(DirectedEdge, UnDirectedEdge):
+    """a link class deriving from both edge classes (directed first in the MRO)"""
+class SymBothUD(UnDirectedEdge, DirectedEdge):
+    """... undirected first"""
 class SymVert(Vertex): pass
 class SymUni(Universe): pass
 class SymFalsyVert(Vertex):
@@ -234,6 +238,60 @@ class H:
                 for sl in getattr(type(x), "__slots__", ()):
                     stack.append(getattr(x, sl, None))
         return False
+
+    def _reach_all(self, roots):
+        """every abstract object (individuals, containers, functions) reachable from the loaded modules or `roots`, by id"""
+        import ast as _ast
+        from . import ae as _ae
+        stack = list(roots) + [m.globals for m in self.w.mods.values() if isinstance(m, _ae.ModuleV)]
+        seen, out = set(), {}
+        while stack:
+            x = stack.pop()
+            if x is None or isinstance(x, (str, int, float, bool, bytes, _ast.AST, _ae.Digest, _ae.Tok, _ae.Opaque, _ae.World, _ae.Interp)) or type(x).__name__ == "SymId":
+                continue
+            if id(x) in seen:
+                continue
+            seen.add(id(x))
+            if isinstance(x, (_ae.Obj, _ae.Seq, _ae.DictV, _ae.SetV, _ae.Func)) and not isinstance(x, _ae.LiveDictV):
+                out[id(x)] = x
+            if isinstance(x, dict):
+                stack.extend(x.keys())
+                stack.extend(x.values())
+            elif isinstance(x, (list, tuple, set, frozenset)):
+                stack.extend(x)
+            elif type(x).__module__.startswith("sa."):
+                d = getattr(x, "__dict__", None)
+                if d:
+                    stack.extend(v for k, v in d.items() if k not in ("_verif_idslot", "_verif_livedict"))
+                for sl in getattr(type(x), "__slots__", ()):
+                    stack.append(getattr(x, sl, None))
+        return out
+
+    def gc_step(self, roots):
+        """An adversarial but legal allocator, to be called between two public calls: objects that were reachable before the last
+        call and are not any more have been collected; an object allocated by a *later* call may live at the address of one that
+        was already dead when that call started (same kind of object).  Code that stores id(x) and lets x die is then compared
+        against the id of a newcomer - which is what CPython does sooner or later."""
+        from . import ae as _ae
+        live = self._reach_all(roots)
+        prev = getattr(self, "_gc_live", None)
+        pool = getattr(self, "_gc_pool", None)
+        if pool is None:
+            pool = self._gc_pool = []
+        if prev is not None:
+            pool.extend(getattr(self, "_gc_pending", None) or [])      # died during the call before the last one: dead when the last call started
+            fresh = [o for i, o in live.items() if i not in prev and getattr(o, "_verif_idslot", None) is None]
+            for o in fresh:
+                for k_, d in enumerate(pool):
+                    if type(d) is type(o) and (not isinstance(o, _ae.Seq) or o.kind == d.kind):
+                        o._verif_idslot = d
+                        pool.pop(k_)
+                        break
+            self._gc_pending = [o for i, o in prev.items() if i not in live]      # died during the last call: free for the next one
+        self._gc_live = live
+
+    def gc_reset(self):
+        self._gc_live, self._gc_pool, self._gc_pending = None, [], []
 
     def reuse_id(self, new, old, roots):
         """`new` is allocated after `old` was dropped: if nothing reaches `old` any more, `new` may live at its address.
